@@ -149,10 +149,11 @@ def monotone(cls, fields, why=""):
         REG.owner_stable.append((cls, f, "monotone", None, why))
 
 
-def rely(cls, fields, when, why=""):
+def rely(cls, fields, when, why="", ensures=None):
     """across a suspension of the running activity `me`: for every object of cls satisfying `when` (over self, me)
-    before the suspension, the listed fields are unchanged afterwards.  Must be backed by `guarantee` clauses."""
-    REG.relies.append((cls, list(fields), when, why))
+    before the suspension, the listed fields are unchanged afterwards and the two-state clause `ensures`
+    (old() = before the suspension) holds.  Must be backed by `guarantee` clauses."""
+    REG.relies.append((cls, list(fields), when, why, ensures))
 
 
 def kernel_fact(name, expr, why="", on_resume=None):
